@@ -37,6 +37,26 @@ type Case struct {
 	// buffer is the very storage that held the text (re-sliced to its first Keep bytes).
 	Parsed vkit.B `json:"parsed_from,omitempty"`
 	Keep   int    `json:"keep,omitempty"`
+	// Settings: the case runs while every package-level setting that belongs to parsing, marshalling and comparing has an
+	// unusual value (none of them is an input of DefaultFormatter).
+	Settings bool `json:"unusual_settings,omitempty"`
+}
+
+// unusualSettings gives every package-level setting other than the Formatter hooks an unusual value and returns the undo.
+func unusualSettings() func() {
+	a1, a2, a3, a4, a5 := date.MaxInputLength, roman.MaxInputLength, sem.MaxInputLength, size.MaxInputLength, uu.MaxInputLength
+	b1, b2, b3, b4, b5 := size.DefaultRule, size.MaxObjectKeys, size.DisableMarshalTextUnit, size.DisableMarshalJSONStringForm, size.DisableMarshalJSONObjectForm
+	c1, c2 := roman.DefaultFormat, sem.ComparePreRelease
+	date.MaxInputLength, roman.MaxInputLength, sem.MaxInputLength, size.MaxInputLength, uu.MaxInputLength = 1, 1, 1, 1, 1
+	size.DefaultRule, size.MaxObjectKeys = size.RuleDisableUnit|size.RuleDisallowUnknownKeys, 1
+	size.DisableMarshalTextUnit, size.DisableMarshalJSONStringForm, size.DisableMarshalJSONObjectForm = true, true, true
+	roman.DefaultFormat = roman.FormatLowerCase | roman.FormatLong
+	sem.ComparePreRelease = func(a, b string) int { return 0 }
+	return func() {
+		date.MaxInputLength, roman.MaxInputLength, sem.MaxInputLength, size.MaxInputLength, uu.MaxInputLength = a1, a2, a3, a4, a5
+		size.DefaultRule, size.MaxObjectKeys, size.DisableMarshalTextUnit, size.DisableMarshalJSONStringForm, size.DisableMarshalJSONObjectForm = b1, b2, b3, b4, b5
+		roman.DefaultFormat, sem.ComparePreRelease = c1, c2
+	}
 }
 
 // judgeParsed: a value parsed from a caller's byte slice is formatted into that same storage (a program that normalises a text
@@ -125,6 +145,9 @@ func judge(c Case, w *vkit.W) {
 			w.Fail(c, "urn-rendering", fmt.Sprintf("URN() = %q, want %q", got, want))
 		}
 		return
+	}
+	if c.Settings {
+		defer unusualSettings()()
 	}
 	if c.Parsed != "" {
 		judgeParsed(c, w)
@@ -335,6 +358,25 @@ func TestCheck(t *testing.T) {
 				}
 			})
 		}
+	})
+
+	r.Phase("settings: boundary values x every flag word x 6 prefixes x 4 spare capacities while all parsing / marshalling / comparing settings have unusual values", func() {
+		r.Serial(func(w *vkit.W) {
+			for _, pkg := range []string{"date", "roman", "sem", "size", "uu"} {
+				for _, base := range values(pkg) {
+					for flags := 0; flags < flagCounts[pkg]; flags++ {
+						for _, p := range []string{"", "x", alphabets[pkg], "10 000 KiB&nbsp;", "urn:uuid:", "MIX:"} {
+							for _, sp := range []int{0, 1, 16, 64} {
+								c := base
+								c.Flags, c.Prefix, c.Spare, c.Settings = flags, vkit.B(p), sp, true
+								judge(c, w)
+								w.EvalRandom(vkit.Hash64("settings", pkg, fmt.Sprint(base), strconv.Itoa(flags), p, strconv.Itoa(sp)), nontrivial(c))
+							}
+						}
+					}
+				}
+			}
+		})
 	})
 
 	r.Phase("urn", func() {
